@@ -36,17 +36,25 @@ RULE = (
     "history element. A case is non-trivial when its stream contains at least one event (the listener fired); "
     "cases are distinct by their key. History alphabet: F full iteration, A2 abandoned after two items, Aev abandoned "
     "right after the first event, X full iteration over another range, O abandoned iteration of another orbit with the "
-    "same listener objects; every history ends with F and is compared with the stream of fresh objects."
+    "same listener objects; every history ends with F and is compared with the stream of fresh objects. 'weave' cases: scripts over "
+    "create / half-consume / drain operations on two or three iterators (two satellites of one plane) sharing the listener objects, in "
+    "every admissible order; each drained stream is compared with the stream of fresh objects (creating an iterator must be inert). "
+    "'vis' cases with additional listeners: the stream must hold the above-horizon samples, the station's own events, and the additional "
+    "events only when the independent elevation is >= 0."
 )
 BOUNDS = {
     "quick": "singles: 24 listeners x {ISS-like, Molniya} x {Kepler, Sgp4, KeplerNum, Ephem} x 2 steps (LEO 60/180 s, HEO 180/600 s) "
     "+ SSO/GTO under Kepler + SSO/Sgp4/600 s; pairs: all 276 pairs on ISS-like/Kepler/180 s; all-together on 4 orbits x 4 propagators; "
     "histories: depth<=1 prefixes for each single listener (ISS-like/Kepler), depth<=2 for a 6-listener set (Kepler, KeplerNum; depth<=1 Sgp4, Ephem); "
-    "a sample placed -1/0/+1 us from an event date (5 listeners x 4 propagators); visibility streams 11 worlds; span 2 revolutions (histories: 1)",
+    "interleaved create/consume scripts (all admissible orders of create A, create B, [half A], drain A, drain B + 3 three-iterator scripts) "
+    "x 4 propagators; a sample placed -1/0/+1 us from an event date (5 listeners x 4 propagators); visibility streams 11 worlds + 17 calls with "
+    "additional listeners passed as events=<Listener>, events=[...], listeners=[...]+events=True, listeners=[...] only; span 2 revolutions "
+    "(histories: 1)",
     "thorough": "singles: 24 x 4 orbits x 4 propagators x steps {30,60,180,600} (HEO: {60,180,600}) (+ call mode 'dates' at 180/600 s); "
     "pairs: 276 x 8 worlds (4 orbits, 4 propagators); all-together: 4 orbits x 4 propagators x 2 steps x 2 listener orders; histories: depth<=2 "
     "for each single listener, depth<=3 for the 6-listener set on 4 propagators (ISS-like) and depth<=2 (Molniya); aligned samples: 11 listeners x "
-    "4 propagators x 2 orbits x events {0,1,2} x offsets -2..+2 us; visibility: 4 orbits x 3 propagators x all steps",
+    "4 propagators x 2 orbits x events {0,1,2} x offsets -2..+2 us; interleaved create/consume scripts on 2 orbits x 4 propagators x 2 call modes; "
+    "visibility: 4 orbits x 3 propagators x all steps + additional-listener calls on 6 worlds",
 }
 ASSUMPTIONS = [
     "sampling semantics: an event of listener l is due in (t_k, t_k+1] iff sign g_l(t_k) != sign g_l(t_k+1) and the "
@@ -71,6 +79,16 @@ ORBITS = {
     "gto": (24396137.0, 0.7283, 7.0, 30.0, 330.0, 100.0),
     "mol": (26554000.0, 0.72, 63.4, 350.0, 270.0, 10.0),
 }
+ALT_ORBITS = {  # second satellite of the same plane for the interleaved-iterator histories (mean anomaly + 180 deg)
+    "iss-b": (6778137.0, 0.0012, 51.6, 30.0, 40.0, 197.0),
+    "mol-b": (26554000.0, 0.72, 63.4, 350.0, 270.0, 190.0),
+}
+
+
+def _el(name):
+    return ORBITS[name] if name in ORBITS else ALT_ORBITS[name]
+
+
 STATIONS = {  # lat, lon [deg], alt [m] : placed near a ground track so that passes exist within two revolutions
     "iss": (35.0, 143.0, 100.0),
     "sso": (20.0, 5.0, 200.0),
@@ -127,7 +145,7 @@ def _epoch():
 def _period(orbit):
     from beyond.constants import Earth
 
-    return 2 * math.pi * math.sqrt(ORBITS[orbit][0] ** 3 / Earth.mu)
+    return 2 * math.pi * math.sqrt(_el(orbit)[0] ** 3 / Earth.mu)
 
 
 def _span(orbit, step, variant=0):
@@ -147,7 +165,7 @@ def make_orbit(orbit, prop):
     from beyond.dates import timedelta
     from beyond.orbits import Orbit
 
-    a, e, i, Om, w, M = ORBITS[orbit]
+    a, e, i, Om, w, M = _el(orbit)
     coord = [a, e, math.radians(i), math.radians(Om), math.radians(w), math.radians(M)]
     if prop in ("kepler", "ephem"):
         o = Orbit(coord, _epoch(), "keplerian_mean", "EME2000", "Kepler")
@@ -166,7 +184,7 @@ def make_orbit(orbit, prop):
         from beyond.env.solarsystem import get_body
         from beyond.propagators.keplernum import KeplerNum
 
-        h = 60 if ORBITS[orbit][1] < 0.1 else 120
+        h = 60 if e < 0.1 else 120
         return Orbit(coord, _epoch(), "keplerian_mean", "EME2000", KeplerNum(timedelta(seconds=h), get_body("Earth")))
     raise ValueError(prop)
 
@@ -215,15 +233,15 @@ def make_listener(key, station):
 class Ctx:
     """Fresh world for one case: restored registries, one station, listener objects, speakers."""
 
-    def __init__(self, orbit, prop, step, lkeys, mode="range", variant=0, shift_us=0):
+    def __init__(self, orbit, prop, step, lkeys, mode="range", variant=0, shift_us=0, sp_orbit=None):
         from mc import world
 
         world.restore(_G["snap"])
         self.orbit, self.prop, self.step, self.lkeys, self.mode = orbit, prop, step, list(lkeys), mode
-        self.variant, self.shift_us = variant, shift_us
+        self.variant, self.shift_us, self.sp_orbit = variant, shift_us, sp_orbit or orbit
         self.station = make_station(orbit)
         self.listeners = [make_listener(k, self.station) for k in lkeys]
-        self.speaker = make_orbit(orbit, prop)
+        self.speaker = make_orbit(self.sp_orbit, prop)
         self._other = None
 
     def other_speaker(self):
@@ -812,21 +830,96 @@ def apply_op(ctx, op, t, case):
     return None
 
 
-def fresh_stream(orbit, prop, step, lkeys, mode, variant, t, case):
-    key = ("fresh", orbit, prop, step, tuple(lkeys), mode, variant)
+def fresh_stream(orbit, prop, step, lkeys, mode, variant, t, case, sp_orbit=None):
+    key = ("fresh", orbit, prop, step, tuple(lkeys), mode, variant, sp_orbit)
     if key not in _G:
-        for k in [k for k in _G if isinstance(k, tuple) and k[0] == "fresh"]:
+        for k in [k for k in _G if isinstance(k, tuple) and k[0] == "fresh" and k[:7] != key[:7]]:
             del _G[k]
-        ctx = Ctx(orbit, prop, step, lkeys, mode, variant)
+        ctx = Ctx(orbit, prop, step, lkeys, mode, variant, 0, sp_orbit)
         items = run_stream(ctx, t, case)
         _G[key] = None if items is None else canon(items, ctx.listeners)
     return _G[key]
+
+
+def weave_scripts():
+    """Every order of {create A, create B, drain A, drain B} and of {create A, half A, drain A, create B, drain B} in which
+    an iterator is created before it is advanced and no other iterator is advanced while A is half consumed (creation of
+    another iterator is allowed at any time: it must be inert), plus 'create three, then drain them in turn / in reverse'.
+    A and C iterate the case's satellite, B a second satellite of the same plane; all share the same listener objects."""
+    out = []
+    for ops in (("cA", "cB", "dA", "dB"), ("cA", "hA", "dA", "cB", "dB")):
+        for perm in sorted(set(itertools.permutations(ops))):
+            pos = {o: i for i, o in enumerate(perm)}
+            if pos["cA"] > pos["dA"] or pos["cB"] > pos["dB"]:
+                continue
+            if "hA" in pos and (not (pos["cA"] < pos["hA"] < pos["dA"]) or pos["hA"] < pos["dB"] < pos["dA"]):
+                continue
+            out.append(list(perm))
+    out.append(["cA", "cB", "cC", "dA", "dB", "dC"])
+    out.append(["cA", "cB", "cC", "dC", "dB", "dA"])
+    out.append(["cA", "cB", "cC", "hA", "cA2", "dA", "dC", "dB"])
+    return out
+
+
+def check_weave(case, t):
+    orbit, prop, step, lkeys, mode = case["orbit"], case["prop"], case["step"], case["lset"], case.get("mode", "range")
+    script = case["script"]
+    skey = ("weave", orbit, prop, step, mode, tuple(lkeys), tuple(script))
+    t.state(skey)
+    variant = 2
+    ref = {"A": fresh_stream(orbit, prop, step, lkeys, mode, variant, t, case),
+           "B": fresh_stream(orbit, prop, step, lkeys, mode, variant, t, case, sp_orbit=orbit + "-b")}
+    ref["C"] = ref["A"]
+    if ref["A"] is None or ref["B"] is None:
+        return
+    ctx = Ctx(orbit, prop, step, lkeys, mode, variant)
+    speakers = {"A": ctx.speaker, "C": ctx.speaker, "B": make_orbit(orbit + "-b", prop)}
+    its, head = {}, {}
+    for i, op in enumerate(script):
+        what, slot = op[0], op[1]
+        try:
+            if what == "c":
+                if op.endswith("2"):
+                    # a further iterator created (and dropped) on the same satellite while A is half consumed
+                    _G.setdefault("suspended", []).append(ctx.iterate(speaker=speakers[slot]))
+                else:
+                    its[slot] = ctx.iterate(speaker=speakers[slot])
+                    head[slot] = []
+                t.trans()
+                continue
+            if what == "h":
+                n = max(4, len(ref[slot]) // 2)
+                for _ in range(n):
+                    head[slot].append(next(its[slot]))
+                t.trans(n)
+                continue
+            items = head[slot] + list(its[slot])
+            t.trans(len(items) - len(head[slot]))
+        except Exception as e:
+            t.fail(f"iter/raises/{prop}/{mode}", "an iteration with listeners yields a stream", case, "stream", repr(e), f"op {op} of {script}")
+            return
+        got = canon(items, ctx.listeners)
+        t.state(skey + (i,))
+        if got != ref[slot]:
+            a = [(x[0], x[1], x[2]) for x in got if x[1] is not None]
+            b = [(x[0], x[1], x[2]) for x in ref[slot] if x[1] is not None]
+            what_d = "events" if a != b else "samples" if [x[0] for x in got] != [x[0] for x in ref[slot]] else "state-values"
+            first = next((j for j, (x, y) in enumerate(zip(got, ref[slot])) if x != y), min(len(got), len(ref[slot])))
+            t.fail(f"reuse/interleaved-create/{what_d}/{prop}", "re-using the same listener objects gives the same stream as fresh objects, "
+                   "whenever the iterators are created (creating an iterator does not touch the listeners)", case, b[:8], a[:8],
+                   f"stream {slot} after {script[:i+1]}: {len(got)} items vs {len(ref[slot])} fresh; first difference at item {first}: "
+                   f"{[x[:3] for x in got[first:first+2]]} vs {[x[:3] for x in ref[slot][first:first+2]]}")
+            return
+    t.ev(skey if any(x[1] is not None for x in ref["A"]) else None)
+    t.outcome(f"weave-ok {len(script)} ops")
 
 
 def check_case(case, t):
     kind = case["kind"]
     if kind == "vis":
         return check_visibility(case, t)
+    if kind == "weave":
+        return check_weave(case, t)
     orbit, prop, step, lkeys, mode = case["orbit"], case["prop"], case["step"], case["lset"], case.get("mode", "range")
     hist = case.get("hist", ["F"])
     skey = (kind, orbit, prop, step, mode, tuple(lkeys), tuple(hist), tuple(case.get("align", ())))
@@ -888,7 +981,8 @@ def check_visibility(case, t):
     from beyond.propagators import listeners as L
 
     orbit, prop, step = case["orbit"], case["prop"], case["step"]
-    skey = ("vis", orbit, prop, step)
+    how, extra = case.get("how", "events=True"), case.get("extra", [])
+    skey = ("vis", orbit, prop, step, how, tuple(extra))
     t.state(skey)
     ctx = Ctx(orbit, prop, step, [])
     if prop == "ephem":
@@ -896,16 +990,32 @@ def check_visibility(case, t):
         return
     s0, s1 = _span(orbit, step)
     kw = dict(start=_epoch() + timedelta(seconds=s0), stop=_epoch() + timedelta(seconds=s1), step=timedelta(seconds=step))
+    # every way of handing additional listeners to visibility(); fresh listener objects for each call
+    xl = [make_listener(k, ctx.station) for k in extra]
+    if how == "events=True":
+        vkw = dict(events=True)
+    elif how == "events=L":
+        vkw = dict(events=xl[0])
+    elif how == "events=[L]":
+        vkw = dict(events=list(xl))
+    elif how == "listeners+events":
+        vkw = dict(listeners=list(xl), events=True)
+    elif how == "listeners-only":
+        vkw = dict(listeners=list(xl))
+    else:
+        raise ValueError(how)
+    with_station = how != "listeners-only"
     try:
         allsamples = list(ctx.speaker.iter(**kw))
-        vis = list(ctx.station.visibility(make_orbit(orbit, prop), events=True, **kw))
-        sl = L.stations_listeners(ctx.station)
+        vis = list(ctx.station.visibility(make_orbit(orbit, prop), **vkw, **kw))
+        # the same listeners (same order: given listeners, then the station's own) in a plain iteration
+        sl = [make_listener(k, ctx.station) for k in extra] + (L.stations_listeners(ctx.station) if with_station else [])
         stream = list(make_orbit(orbit, prop).iter(listeners=sl, **kw))
-        evs = [x for x in stream if x.event is not None]
+        allev = [x for x in stream if x.event is not None]
     except Exception as e:
         t.fail(f"visibility/raises/{prop}", "station.visibility yields a stream", case, "stream", repr(e))
         return
-    t.trans(len(allsamples) + len(vis) + len(evs))
+    t.trans(len(allsamples) + len(vis) + len(stream))
     exp_samples = []
     for s in allsamples:
         el, _ = elevation(s, orbit)
@@ -921,10 +1031,33 @@ def check_visibility(case, t):
     if [d for d in got_samples if d in set(must)] != must or any(d not in may for d in got_samples):
         t.fail("visibility/samples", "the visibility stream contains exactly the above-horizon sample points", case,
                must[:10], got_samples[:10], f"{len(must)} expected, {len(got_samples)} yielded")
-    exp_events = [(us_of(x.date), str(x.event.info)) for x in evs]
-    if got_events != exp_events:
-        t.fail("visibility/events", "the visibility stream contains the AOS/LOS/MAX (and mask) events of the station", case,
-               exp_events[:10], got_events[:10])
+    # events: the station's own AOS/LOS/MAX(/mask) always; those of additional listeners only while above the horizon
+    station_classes = (L.SignalEvent, L.MaxEvent)
+    exp_events, opt_events, evs, hidden = [], set(), [], 0
+    for x in allev:
+        rec = (us_of(x.date), str(x.event.info))
+        if with_station and isinstance(x.event, station_classes):
+            exp_events.append(rec)
+            evs.append(x)
+            continue
+        el, _ = elevation(x, orbit)
+        if abs(el) < 1e-9:
+            t.exclude("gate quantity within 1e-9 of its threshold at a sample")
+            opt_events.add(rec)
+            exp_events.append(rec)
+        elif el >= 0:
+            exp_events.append(rec)
+        else:
+            hidden += 1
+    if [e for e in got_events if e not in opt_events] != [e for e in exp_events if e not in opt_events]:
+        below = [e for e in got_events if e not in exp_events]
+        sig = "visibility/events" if not extra else "visibility/extra-events/" + ("below-horizon" if below else "missing")
+        t.fail(sig, "the visibility stream contains the above-horizon sample points plus the AOS/LOS/MAX (and mask) events of the "
+               "station; events of additional listeners only while the satellite is in view", case, exp_events[:10], got_events[:10],
+               f"how={how} extra={extra}: {len(below)} unexpected (e.g. {below[:3]}), {len([e for e in exp_events if e not in got_events])} missing; "
+               f"{hidden} extra events happen below the horizon")
+    if extra:
+        t.outcome(f"vis {how}: {hidden} hidden / {len(exp_events) - len(evs)} visible extra events")
     dd = [us_of(x.date) for x in vis]
     if any(b < a for a, b in zip(dd, dd[1:])):
         t.fail("visibility/order", "chronological order", case, None, dd[:10])
@@ -933,6 +1066,12 @@ def check_visibility(case, t):
             t.fail("visibility/tags", "points are given in the station frame, spherical form", case, [ctx.station.name, "spherical"],
                    [x.frame.name, x.form.name])
             break
+    if extra:
+        t.ev(skey if hidden else None)
+        if hidden:
+            t.sample(dict(case, hidden_extra_events=hidden, stream_events=got_events[:6]))
+        return
+    exp_events = [(us_of(x.date), str(x.event.info)) for x in evs]
     # events: elevation / elevation rate zero (independent elevation on the inertial state of the same event)
     for x in evs:
         el, rate = elevation(x, orbit)
@@ -1034,12 +1173,20 @@ def cases(tier):
         for h in histories(1 if quick else 2):
             out.append(dict(kind="hist", orbit="iss", prop="kepler", step=180, mode="range", lset=[key], hist=h))
     for prop in props:
-        for h in histories((2 if prop in ("kepler", "num") else 1) if quick else 3):
+        for h in histories((2 if prop == "kepler" else 1) if quick else 3):
             out.append(dict(kind="hist", orbit="iss", prop=prop, step=180, mode="range", lset=HIST_SET, hist=h))
     if not quick:
         for prop in props:
             for h in histories(2):
                 out.append(dict(kind="hist", orbit="mol", prop=prop, step=600, mode="range", lset=HIST_SET, hist=h))
+    # interleaved creation / consumption of several iterators sharing the listener objects (creation must be inert)
+    for orbit, step in (("iss", 180),) if quick else (("iss", 180), ("mol", 600)):
+        for prop in props:
+            for sc in weave_scripts():
+                out.append(dict(kind="weave", orbit=orbit, prop=prop, step=step, mode="range", lset=WEAVE_SET, script=sc))
+            if not quick:
+                for sc in weave_scripts()[:6]:
+                    out.append(dict(kind="weave", orbit=orbit, prop=prop, step=step, mode="dates", lset=WEAVE_SET, script=sc))
     # a sample exactly at / one microsecond around an event date
     for orbit in ("iss",) if quick else ("iss", "mol"):
         for prop in props:
@@ -1057,7 +1204,24 @@ def cases(tier):
                 if quick and step != steps_for(orbit, tier)[-1] and orbit != "iss":
                     continue
                 out.append(dict(kind="vis", orbit=orbit, prop=prop, step=step))
+    # visibility streams with additional listeners, handed over in every possible way
+    for orbit, prop, step in (("iss", "kepler", 180), ("mol", "kepler", 600)) if quick else \
+            (("iss", "kepler", 180), ("mol", "kepler", 600), ("sso", "sgp4", 60), ("gto", "num", 600), ("iss", "sgp4", 60), ("mol", "num", 180)):
+        for how, extras in VIS_EXTRA:
+            for extra in extras:
+                if quick and orbit == "mol" and how in ("events=L", "listeners-only"):
+                    continue
+                out.append(dict(kind="vis", orbit=orbit, prop=prop, step=step, how=how, extra=extra))
     return out
+
+
+WEAVE_SET = ["node", "apside", "anom-mean-3", "sig0"]
+VIS_EXTRA = [
+    ("events=L", [["umbra"], ["node"], ["apside"], ["anom-mean-3"], ["terminator"]]),
+    ("events=[L]", [["umbra", "node", "apside"], ["rv", "anom-true-90"]]),
+    ("listeners+events", [["umbra", "node"], ["apside", "terminator"]]),
+    ("listeners-only", [["node", "apside"], ["umbra"]]),
+]
 
 
 HIST_SET = ["node", "apside", "anom-mean-3", "umbra", "sig0", "max"]
@@ -1072,9 +1236,9 @@ PROD_MS = {"kepler": 0.35, "sgp4": 0.15, "ephem": 0.6, "num": 0.6}
 def _cost(c):
     """Estimated CPU seconds of one case."""
     orbit, prop, step = c["orbit"], c["prop"], c["step"]
-    s0, s1 = _span(orbit, step, 2 if c["kind"] == "hist" else 0)
+    s0, s1 = _span(orbit, step, 2 if c["kind"] in ("hist", "weave") else 0)
     nsamp = (s1 - s0) / step
-    lset = c.get("lset") or ["sig0", "max", "mask"]
+    lset = c.get("lset") or (["sig0", "max", "mask"] + c.get("extra", []))
     wl = sum(W_MS.get(k, 0.55) for k in lset)
     revs = (s1 - s0) / _period(orbit)
     events = 2.2 * revs * len(lset)
@@ -1087,6 +1251,8 @@ def _cost(c):
     check = nsamp * 0.33 * wl + 0.33 * events * per_event
     if c["kind"] == "vis":
         total = 2.2 * one_iter + check + nsamp * 1.0
+    elif c["kind"] == "weave":
+        total = one_iter * (0.5 * len(c["script"]) + 0.6)
     elif c["kind"] == "hist":
         total = one_iter * (0.45 * (len(c["hist"]) - 1) + 1.0) + 0.3 * one_iter
     elif c["kind"] == "aligned":
